@@ -642,7 +642,9 @@ class Monitor:
                     K = x.shape[-1]
                     bias_abs = 0.0
                 elif name == "linear":
-                    x, w = a64[0], a64[1]
+                    # operands may be spelled by keyword: linear(input, weight, bias=None)
+                    x = a64[0] if len(a64) > 0 else k64["input"]
+                    w = a64[1] if len(a64) > 1 else k64["weight"]
                     b = a64[2] if len(a64) > 2 else k64.get("bias")
                     ref = torch.nn.functional.linear(x, w, b)
                     absdot = torch.nn.functional.linear(x.abs(), w.abs())
